@@ -280,8 +280,8 @@ def run(tier):
     shards = [("self-test", (), 0, tier)]
     # depth 5 (thorough) only below prefixes drawn from the operations that leave something behind or depend on
     # what was left (imports, failed loads, mutation, catch-all vs named slot); other prefixes go to depth 4
-    core = (0, 2, 5, 7, 9, 11, 12, 13, 14, 17, 19, 21)
-    shards += [("explicit", (i, j), depth if (depth <= 4 or (i in core and j in core)) else 4, tier)
+    core_ops = (0, 2, 5, 7, 9, 11, 12, 13, 14, 17, 19, 21)
+    shards += [("explicit", (i, j), depth if (depth <= 4 or (i in core_ops and j in core_ops)) else 4, tier)
                for i in range(nops) for j in range(nops)]
     shards += [("explicit", (i,), 1, tier) for i in range(nops)]
     shards += [("bfs", (), 8, tier)]
